@@ -1,4 +1,5 @@
 import LexgenModel.Proofs.NextMore
+import LexgenModel.Proofs.Capstone
 import LexgenModel.Proofs.RefRefine
 import LexgenModel.Proofs.EndToEnd
 /-!
@@ -46,5 +47,26 @@ theorem C08_refines_reference (items : LexerDef) (c : Compiled) (h : compileLexe
     (r : Option (Item τ ε) × LState σ) (hn : next (c.config actions width input) st = some r) :
     RefNext items c ctxAt (c.config actions width input) st r :=
   next_refines_ref items c h hok ctxAt hnum actions width input st hr r hn
+
+/-- Recovery at the language level, completely: the model's `next()` equals the executable reference lexer, whose `InvalidToken` branch (`errState`) resumes
+after the longest VIABLE prefix of the remaining input (a prefix that some rule of the active rule set can still extend to one of its words) plus the
+offending character if the automaton was still reading, with `Init` active, an empty match, nothing saved and the user state untouched; what `viableRef`
+computes is characterised in terms of the regex denotations by `C08_viable_prefix`. -/
+theorem C08_model_is_specification (items : LexerDef) (c : Compiled) (h : compileLexer items = .ok c) (hok : DefOK items) (hne : DefNE items)
+    (actions : Nat → Action σ τ ε) (width : Nat → Nat) (input : Option (List Nat))
+    (st : LState σ) (hr : Ready (c.config actions width input) st) :
+    next (c.config actions width input) st = specNextFull items (c.config actions width input) st :=
+  next_eq_specNext items c h hok hne actions width input st hr
+
+/-- the viability scan of the reference lexer in terms of `den`: `k` is the length of the longest prefix all of whose non-empty prefixes some regex can extend
+to a word, the next prefix (if any) cannot be extended by anything, and the flag says whether after `k` characters some regex can take at least one more symbol -/
+theorem C08_viable_prefix (res : List Regex) (hne : ∀ r ∈ res, NoEmptyPieces r) (iter : List Nat) :
+    (viableRef res iter).1 ≤ iter.length ∧
+    (∀ j, 0 < j → j ≤ (viableRef res iter).1 → ∃ r ∈ res, ∃ v : List Sym, den r ((iter.take j).map Sym.ch ++ v)) ∧
+    ((viableRef res iter).1 < iter.length →
+      ¬ ∃ r ∈ res, ∃ v : List Sym, den r ((iter.take ((viableRef res iter).1 + 1)).map Sym.ch ++ v)) ∧
+    (((viableRef res iter).2.any fun r => aliveR r && hasWordR r) = true ↔
+      ∃ r ∈ res, ∃ (x : Sym) (v : List Sym), den r ((iter.take (viableRef res iter).1).map Sym.ch ++ x :: v)) :=
+  viableRef_spec res hne iter
 
 end Lexgen
